@@ -3,7 +3,8 @@
 
         lui rd, %hi(e)     …     addi / lw / sw / jalr …, %lo(e)
 
-  both still 32-bit items after resolve_aligns (so neither was rewritten by `-c`), emits two words that
+  both still 32-bit items of THE list the pipeline holds after resolve_aligns (`lay.aligned` of
+  `C04.layoutOf`, see `C03.Frame`; so neither was rewritten by `-c`), emits two words that
   the SPECIFICATION decodes to `lui ra, hi` and the consumer with immediate `lo`, where `hi` / `lo` are
   `%hi` / `%lo` of the value of `e` evaluated at the respective item's own byte offset against the
   RETURNED tables; whenever `e` has the same value `x` at both offsets,
@@ -174,16 +175,25 @@ theorem step_consumer {H : Hooks} {constants L : Dict} {p : Int} {line line' : L
         simp only [Item.blob.injEq] at hz
         exact ⟨w, r1, r2, x, by simpa [Instr.setImm, Instr.isCompressed] using hz.2, hdec, rfl, rfl, hx⟩
 
-/-- **A %hi / %lo pair rebuilds the value it splits.**  After resolve_aligns item `i` is
-    `lui rdU, %hi(e)` and item `j` (anywhere) consumes `%lo(e)`: the four output bytes at each item's
+/-- **A %hi / %lo pair rebuilds the value it splits.**  `lay` is the layout the inputs determine
+    (`C03.Frame`: `lay.aligned` is the list the pipeline holds after resolve_aligns).  If item `i` of it
+    is `lui rdU, %hi(e)` and item `j` (anywhere) consumes `%lo(e)`: the four output bytes at each item's
     byte offset decode to `lui ra, hi` and the consumer with immediate `lo`; `e` evaluates (against the
     returned tables) to `xi` at the lui's offset and to `xj` at the consumer's; and if these are the same
-    value, `((hi <<< 12) mod 2^32 + lo) mod 2^32` is that value modulo 2^32. -/
+    value, `((hi <<< 12) mod 2^32 + lo) mod 2^32` is that value modulo 2^32.
+
+    SCOPE - exactly what is covered.  Producer: only the 32-bit item `.u "lui" rd (.hi e)` (not `auipc`
+    - the far call / tail pair is `C03.assemble_far_pair_lands` -, not `c.lui`: an item that `-c`
+    rewrote to `c.lui` no longer matches).  Consumers (`Consumes`): only 32-bit items of shape
+    `.i name rd rs (.lo e) false` with `name` in addi / slti / sltiu / xori / ori / andi, lb / lh / lw /
+    lbu / lhu, or a hand-written `jalr`, and `.s name rs1 rs2 (.lo e)` with `name` in sb / sh / sw.
+    Nothing is said about compressed consumers (c.addi, c.lw, …), about `%lo` inside `pack` / `db…dd`
+    data, or about the pseudo-instruction `li` (it never produces `%hi` / `%lo` items). -/
 theorem assemble_hi_lo_pair (H : Hooks) (compress : Bool) (items : List Item) (r : AsmResult)
     (h : assembleItems H compress items [] [] = .ok r) :
-    ∃ items7 out : List Item, Expands items items7 ∧ r.bytes = blobBytes out ∧
-      ∀ (i j : Nat) (hi : i < items7.length) (hj : j < items7.length) lineU lineC rdU (e : Imm) ins mk a b,
-        items7[i] = .instr lineU (.u "lui" rdU (.hi e)) → items7[j] = .instr lineC ins → Consumes e ins mk a b →
+    ∃ lay out, Frame H compress items r lay out ∧
+      ∀ (i j : Nat) (hi : i < lay.aligned.length) (hj : j < lay.aligned.length) lineU lineC rdU (e : Imm) ins mk a b,
+        lay.aligned[i] = .instr lineU (.u "lui" rdU (.hi e)) → lay.aligned[j] = .instr lineC ins → Consumes e ins mk a b →
         ∃ (w0 w1 ra r1 r2 hi20 : Nat) (lo xi xj : Int),
           (r.bytes.drop (blobBytes (out.take i)).length).take 4 = leBytes 4 w0 ∧
           (r.bytes.drop (blobBytes (out.take j)).length).take 4 = leBytes 4 w1 ∧
@@ -193,8 +203,10 @@ theorem assemble_hi_lo_pair (H : Hooks) (compress : Bool) (items : List Item) (r
           Imm.eval H (chainGet r.constants r.labels) lineC e ((blobBytes (out.take j)).length : Int) = .ok xj ∧
           hi20 < 1048576 ∧ -2048 ≤ lo ∧ lo ≤ 2047 ∧
           (xi = xj → (((hi20 : Int) * 4096) % 4294967296 + lo) % 4294967296 = xi % 4294967296) := by
-  obtain ⟨items7, out, hexp, hland, hbytes⟩ := assemble_land H compress items r h
-  refine ⟨items7, out, hexp, hbytes, ?_⟩
+  obtain ⟨lay, out, hF⟩ := assemble_land H compress items r h
+  have hland := hF.land
+  have hbytes := hF.bytes
+  refine ⟨lay, out, hF, ?_⟩
   intro i j hi hj lineU lineC rdU e ins mk a b hU hC hcons
   obtain ⟨itU, lU, dU, _, hbodyU, hfinU, hsliceU⟩ := hland.at i hi
   obtain ⟨itC, lC, dC, _, hbodyC, hfinC, hsliceC⟩ := hland.at j hj
@@ -296,5 +308,26 @@ example :
 
 example : Consumes (.arith "T") (.i "lw" (.str "x6") (.str "x5") (.lo (.arith "T")) false) (Instr32.load .lw) (.str "x6") (.str "x5") :=
   .load "lw" _ _ .lw 0b0000011 0b010 (by decide) (by decide)
+
+/-- a little program around a pair: label, pair with a `nop` in between, data, alignment -/
+def pairProg : List Item :=
+  [.constant ⟨"m.asm", 1, "T = 0x12345800"⟩ "T" (.arith "0x12345800"),
+   .label ⟨"m.asm", 2, "go:"⟩ "go",
+   .shorthandPack ⟨"m.asm", 3, "db 1"⟩ "db" (.arith "1"),
+   .align ⟨"m.asm", 4, "align 4"⟩ 4,
+   .instr ⟨"m.asm", 5, "lui x5, %hi(T)"⟩ (.u "lui" (.str "x5") (.hi (.arith "T"))),
+   .pseudo ⟨"m.asm", 6, "nop"⟩ "nop" [],
+   .instr ⟨"m.asm", 7, "lw x6, %lo(T)(x5)"⟩ (.i "lw" (.str "x6") (.str "x5") (.lo (.arith "T")) false),
+   .pseudo ⟨"m.asm", 8, "ret"⟩ "ret" []]
+
+/-- the hypothesis of `assemble_hi_lo_pair` has instances: the layout computed for `pairProg` holds the
+    `lui` at index 2 and the consuming `lw` at index 4, in both modes (and both assemblies succeed) -/
+example : ∀ c : Bool,
+    ((BB.Props.C04.layoutOf (textHooks ⟨[], []⟩) c pairProg).toOption.map
+      (fun l => (l.aligned[2]?, l.aligned[4]?)) = some
+      (some (.instr ⟨"m.asm", 5, "lui x5, %hi(T)"⟩ (.u "lui" (.str "x5") (.hi (.arith "T")))),
+       some (.instr ⟨"m.asm", 7, "lw x6, %lo(T)(x5)"⟩ (.i "lw" (.str "x6") (.str "x5") (.lo (.arith "T")) false)))) ∧
+    (bytesOf (assembleItems (textHooks ⟨[], []⟩) c pairProg [] [])).length = (if c then 16 else 20) := by
+  decide +kernel
 
 end BB.Props.C07
